@@ -110,9 +110,22 @@ func (s *Source) Read(p []byte) (int, error) {
 }
 
 // SeekSource adds Seek; its fault is tied to the absolute offset (a bad sector), not sticky.
-type SeekSource struct{ Source }
+type SeekSource struct {
+	Source
+	// SeekFail = k > 0 makes the k-th Seek call (1-based) fail without moving; with SeekSticky every later Seek
+	// fails too (a handle that stopped seeking); otherwise the failure is reported once (a transient fault).
+	SeekFail   int
+	SeekSticky bool
+	Seeks      int
+	SeekFired  bool
+}
 
 func (s *SeekSource) Seek(off int64, whence int) (int64, error) {
+	s.Seeks++
+	if s.SeekFail > 0 && (s.Seeks == s.SeekFail || (s.SeekSticky && s.Seeks > s.SeekFail)) {
+		s.SeekFired = true
+		return 0, ErrInjected
+	}
 	var base int64
 	switch whence {
 	case io.SeekStart:
